@@ -84,8 +84,16 @@ func verifC17Translate() {
 			verifKernelMkdir("/out")
 			verifKernelMkdir("/out/example_com")
 			verifKernelMkdir("/out/example_com/b_c")
-			old := verifNondetBytes("old", 3)
-			verifKernelPlantFile(verifOutPaths[k], old, 3)
+			// same length as the new contents (so only a real comparison can tell them apart), or shorter
+			oldLen := len(want)
+			if verifChoose(2) == 1 {
+				oldLen = 3
+			}
+			old := verifNondetBytes("old", oldLen)
+			if oldLen == len(want) {
+				verifAssume(!verifBytesEq(old, want))
+			}
+			verifKernelPlantFile(verifOutPaths[k], old, uint64(oldLen))
 		}
 	}
 	verifResetOutput()
